@@ -28,6 +28,24 @@ Theorem C07_bad_output_ignored : forall cur g now,
 Proof. exact bad_output_ignored. Qed.
 Print Assumptions C07_bad_output_ignored.
 
+(* A node that joins through a RESHARING (epoch >= 2: the chain is running) always starts its
+   beacon loop, in catch-up mode, whenever the output arrives and whether or not the node has a
+   finished key generation of its own on record: no halted round for want of the joiners.  Only
+   after the INITIAL key generation is the beacon started from scratch, and that start refuses
+   once the genesis time has passed.  (Model/Reshare.v join_runs; compared with a real fresh
+   BeaconProcess handed such outputs through onDKGCompleted by the reshareapply engine.) *)
+Theorem C07_joiner_of_resharing_starts : forall epoch genesis now,
+  2 <= epoch -> join_runs epoch genesis now = true.
+Proof.
+  intros epoch genesis now H. unfold join_runs, join_mode.
+  destruct (epoch =? 1) eqn:E; [apply Z.eqb_eq in E; lia|reflexivity].
+Qed.
+Theorem C07_initial_start_needs_future_genesis : forall genesis now,
+  join_runs 1 genesis now = true <-> now <= genesis.
+Proof. intros genesis now. unfold join_runs, join_mode. cbn. apply Z.leb_le. Qed.
+Print Assumptions C07_joiner_of_resharing_starts.
+Print Assumptions C07_initial_start_needs_future_genesis.
+
 (* the scheme and the key are NOT compared by validateGroupTransition (observation: a Byzantine
    leader is outside C07's quantifier; remaining members' dkg validation is C08/C09) *)
 Example C07_scheme_unchecked :
